@@ -143,10 +143,8 @@ def main():
             if prop in ('C01', 'C03', 'C04', 'C05', 'C09', 'C10', 'C11', 'C12', 'C19', 'C14') and (spec['mgr_faults'] or spec['store_faults']):
                 probs = []   # value-level oracles assume collaborators that do not raise
             if probs:
-                import re
-                probs_known = [p for p in probs if not any(re.search(nk, p) for f in findings for nk in f.get('not_kinds', []))]
-                hit = [f for f in findings if fl.get(f['trigger']) and len(probs_known) == len(probs)
-                       and any(re.search(k, p) for k in f['kinds'] for p in probs)]
+                hitf = O.known_instance(findings, fl, probs)
+                hit = [hitf] if hitf else []
                 if hit:
                     known_hits[hit[0]['id']] += 1
                     st['known_finding_instances'] += 1
